@@ -196,6 +196,9 @@ def encode(kind: str, h: str):
         return [np.frombuffer(bytes.fromhex(h), dtype=np.uint8).copy(), np.arange(3)]
     if kind in ('dir', 'continues'):
         return {'prov.txt': h, 'sub/more.bin': 'x' * 10}
+    if kind == 'dir_link':
+        # directory result holding a RELATIVE symbolic link that points outside the directory (big shared file linked, not copied)
+        return {'prov.txt': h, 'ext_link.txt': 'shared-blob'}
     if kind == 'memory':
         return h
     raise ValueError(kind)
@@ -206,7 +209,7 @@ def expected_vdigest(kind: str, h: str) -> str:
     v = encode(kind, h)
     if kind == 'lazy':
         return H(tcanon(['lazy', v]))
-    if kind in ('dir', 'continues', 'empty_dir'):
+    if kind in ('dir', 'continues', 'empty_dir', 'dir_link'):
         return H(tcanon({'__dir__': v}))
     if kind == 'memory':
         return H(tcanon(['mem', v]))
@@ -216,7 +219,7 @@ def expected_vdigest(kind: str, h: str) -> str:
 RETURN_TYPES = {
     'json_dict': dict, 'json_list': list, 'str': str, 'int': int, 'numpy': np.ndarray, 'pandas': pd.DataFrame,
     'generator': Generator, 'lazy': list, 'listnp': list, 'dir': DirData, 'continues': ContinuesData, 'memory': LabMem,
-    'empty_gen': Generator, 'empty_listnp': list, 'empty_dir': DirData,
+    'empty_gen': Generator, 'empty_listnp': list, 'empty_dir': DirData, 'dir_link': DirData,
 }
 DATA_CLASS = {'lazy': GeneratedDataLazy, 'listnp': ListOfNumpyData, 'empty_listnp': ListOfNumpyData}
 
@@ -312,6 +315,16 @@ def lab_run(task, spec, args):
                     raise LabFault(f'{full} generator fault uid={uid}')
                 yield item
         return gen()
+    if kind == 'dir_link':
+        data = task.get_data_object()
+        (data.dir / 'prov.txt').write_text(value['prov.txt'])
+        blob = Path(task.get_config().base_dir) / 'shared_blob.txt'
+        if not blob.exists():
+            blob.write_text(value['ext_link.txt'])
+        link = data.dir / 'ext_link.txt'
+        if not link.is_symlink():
+            os.symlink(os.path.relpath(blob, data.dir), link)      # the work dir and the final dir are siblings: the relative link stays valid
+        return data
     if kind in ('dir', 'continues', 'empty_dir'):
         data = task.get_data_object()
         saw = sorted(str(x.relative_to(data.dir)) for x in data.dir.rglob('*') if x.is_file())
